@@ -228,6 +228,37 @@ def r3(F, rep):
     rep.add("C19-R3", "label-request|raised", f.loc(), "label refresh is requested by: %s" % sorted(set(sets)), len(set(sets)) >= 1, func=f.q)
 
 
+def r4(F, rep):
+    rep.rule("C19-R4", "running statistics: in colvar::calc_runave() every term added to the running variance is the squared "
+                       "distance between the running average and a sample (the current value or an element of the history), the "
+                       "average is the sum of the same samples divided by the window length, and the variance by length - 1")
+    from .rules_c10 import lvalue_writes
+    f = F.one("colvar::calc_runave")
+    res = X.const_locals(f)
+    terms = [w for w, t in lvalue_writes(f) if X.key(t, f) == "this.runave_variance" and w.get("op") == "+="]
+    if len(terms) < 2:
+        rep.add("C19-R4", "variance|terms", f.loc(), "calc_runave(): %d terms are added to the running variance (current value and history expected)" % len(terms), False, func=f.q)
+    for i, w in enumerate(terms):
+        rhs = X.kids(w)[1]
+        d = [c for c in X.calls(f, rhs) if X.callee_name(c) == "dist2"]
+        ok = False
+        args = []
+        if len(d) == 1:
+            args = [X.re_strip(X.key(a, f)) for a in X.call_args(d[0])]
+            ok = "this.runave" in args and any(a != "this.runave" for a in args)
+        in_loop = any(a["k"] == "ForStmt" for a in f.ancestors(w))
+        rep.add("C19-R4", "variance|%s" % ("history" if in_loop else "current"), f.loc(w), "variance term %s: dist2(%s)" % (
+            "over the history" if in_loop else "for the current value", ", ".join(args)), ok,
+            detail="deviations would be measured from something other than the mean", func=f.q)
+    norm = [w for w, t in lvalue_writes(f) if X.key(t, f) in ("this.runave_variance", "this.runave") and w.get("op") == "*="]
+    ks = {X.key(t, f): X.re_strip(X.key((X.kids(w)[1] if w["k"] != "CXXOperatorCallExpr" else X.call_args(w)[1]), f)) for w, t in
+          [(w, t) for w, t in lvalue_writes(f) if X.key(t, f) in ("this.runave_variance", "this.runave") and w.get("op") == "*="]}
+    okn = "runave_length" in ks.get("this.runave", "") and "- 1" not in ks.get("this.runave", "") and \
+        "(this.runave_length - 1)" in ks.get("this.runave_variance", "")
+    rep.add("C19-R4", "normalisation", f.loc(), "average scaled by %s, variance by %s" % (ks.get("this.runave"), ks.get("this.runave_variance")), okn, func=f.q)
+
+
 def run(F, rep, tier):
     r1_r2(F, rep)
     r3(F, rep)
+    r4(F, rep)
